@@ -498,6 +498,10 @@ func (c *Ctx) Bin(op Op, a, b *T) *T {
 			if a.Op == OpAnd && a.Args[1].IsConst() {
 				return c.Bin(OpAnd, a.Args[0], c.BVConst(w, a.Args[1].Val&b.Val))
 			}
+			// (x | k) & m  ->  (x & m) | (k & m)
+			if a.Op == OpOr && a.Args[1].IsConst() {
+				return c.Bin(OpOr, c.Bin(OpAnd, a.Args[0], b), c.BVConst(w, a.Args[1].Val&b.Val))
+			}
 		}
 		if a == b {
 			return a
@@ -539,6 +543,10 @@ func (c *Ctx) Bin(op Op, a, b *T) *T {
 		}
 		if op == OpLShr && b.IsConst() && b.Val < 64 && a.hi>>b.Val == 0 {
 			return c.BVConst(w, 0)
+		}
+		// (x & k) >> n -> (x >> n) & (k >> n);  (x | k) >> n -> (x >> n) | (k >> n)
+		if op == OpLShr && b.IsConst() && b.Val < 64 && (a.Op == OpAnd || a.Op == OpOr) && a.Args[1].IsConst() {
+			return c.Bin(a.Op, c.Bin(OpLShr, a.Args[0], b), c.BVConst(w, a.Args[1].Val>>b.Val))
 		}
 	case OpUDiv:
 		if b.IsConst() && b.Val == 1 {
